@@ -11,7 +11,7 @@ def leftover_signature(tok):
     """Generic, name-agnostic snapshot of everything the tokenizer carries over."""
     out = []
     for k, v in sorted(vars(tok).items()):
-        if callable(v) and not isinstance(v, (list, tuple)):
+        if k == "_verif_cell" or (callable(v) and not isinstance(v, (list, tuple))):
             continue
         if isinstance(v, list):
             v = tuple(("tok", len(x[0]), x[1], x[2]) if (isinstance(x, tuple) and len(x) == 3 and isinstance(x[0], list))
@@ -22,9 +22,31 @@ def leftover_signature(tok):
     return tuple(out)
 
 
-def uses_of(n_tokens):
-    """First uses: complete list run, callback run, generator dropped after j items."""
-    return [("list",), ("callback",)] + [("gen", j) for j in range(n_tokens + 1)] + [("gen_exhausted",)]
+class Boom(Exception):
+    pass
+
+
+class RaisingSrc(Src):
+    """A source that raises on its k-th read (an I/O error in the middle of a stream)."""
+
+    def __init__(self, frames, k):
+        super().__init__(frames)
+        self._k = k
+
+    def read(self):
+        if self.i >= self._k:
+            raise Boom("read %d failed" % self._k)
+        return super().read()
+
+
+def uses_of(n_tokens, n_frames=0):
+    """First uses: complete list run, callback run, generator dropped after j items, and runs cut short
+    by an exception (from the source at read k, from the callback at token j, from the validator at frame k)."""
+    uses = [("list",), ("callback",)] + [("gen", j) for j in range(n_tokens + 1)] + [("gen_exhausted",)]
+    uses += [("cb_raises", j) for j in range(n_tokens)]
+    uses += [("src_raises", k) for k in range(n_frames + 1)]
+    uses += [("val_raises", k) for k in range(n_frames)]
+    return uses
 
 
 def second_use(tok, how, f2):
@@ -49,6 +71,48 @@ def apply_use(tok, use, frames):
     elif use[0] == "gen_exhausted":
         for _ in tok.tokenize(src, generator=True):
             pass
+    elif use[0] == "cb_raises":
+        seen = [0]
+
+        def cb(*a):
+            seen[0] += 1
+            if seen[0] > use[1]:
+                raise Boom("callback failed")
+
+        try:
+            tok.tokenize(src, callback=cb)
+        except Boom:
+            pass
+    elif use[0] == "src_raises":
+        try:
+            tok.tokenize(RaisingSrc(frames, use[1]))
+        except Boom:
+            pass
+    elif use[0] == "val_raises":
+        # the tokenizer's validator is a plain callable kept by the harness: make it fail once at frame k
+        cell = getattr(tok, "_verif_cell", None)
+        if cell is not None:
+            cell[0] = use[1]
+            try:
+                tok.tokenize(src)
+            except Boom:
+                pass
+            finally:
+                cell[0] = None
+
+
+def make_tok(ST, params):
+    """A tokenizer whose validator can be told to raise at a given frame index (cell[0])."""
+    cell = [None]
+
+    def validator(f):
+        if cell[0] is not None and f[0] == cell[0]:
+            raise Boom("validator failed at frame %d" % f[0])
+        return f[1]
+
+    tok = ST(validator, *params)
+    tok._verif_cell = cell
+    return tok
 
 
 def work(task):
@@ -70,9 +134,9 @@ def work(task):
                 f1 = frames_of(n1, b1)
                 t0 = ST(_valid_tuple, mn, mx, ms, im, is_, mode)
                 ntok = len(t0.tokenize(Src(f1)))
-                for use in uses_of(ntok):
+                for use in uses_of(ntok, n1):
                     cov["first_uses_tried"] += 1
-                    tok = ST(_valid_tuple, mn, mx, ms, im, is_, mode)
+                    tok = make_tok(ST, params)
                     apply_use(tok, use, f1)
                     sig = leftover_signature(tok)
                     if sig in seen:
@@ -80,7 +144,7 @@ def work(task):
                     seen[sig] = (n1, b1, use)
                     # every distinct leftover state is paired with every second stream
                     for n2, b2 in s2_all:
-                        tok = ST(_valid_tuple, mn, mx, ms, im, is_, mode)
+                        tok = make_tok(ST, params)
                         f2 = frames_of(n2, b2)
                         if (n2 + b2) % 3 == 0:
                             # the second stream's generator is requested first, consumed after the other use
@@ -214,6 +278,44 @@ def misc(rep, tier):
                 if got != [freshv[w] for w in trip]:
                     rep.violation("validator thr=%r ch=%d uc=%r windows=%r" % (thr, ch, uc, [w.hex() for w in trip]),
                                   "verdicts %r depend on history (fresh: %r)" % (got, [freshv[w] for w in trip]), {"kind": "misc"})
+    # deep histories: a verdict repeated after hundreds / thousands of other distinct windows
+    for nbetween in (130, 300, 520, 700, 1100, 2100):
+        for thr, ch in ((50, 1), (50, 2)):
+            loud = (b"\x10\x27" * ch) * 4
+            faint = (b"\x02\x00" * ch) * 4
+            for first, fillers_loud in ((loud, False), (faint, True)):
+                rep.add("evaluations")
+                v = util.AudioEnergyValidator(thr, 2, ch)
+                want = bool(util.AudioEnergyValidator(thr, 2, ch).is_valid(first))
+                v.is_valid(first)
+                for k in range(nbetween):
+                    base = 9000 + k if fillers_loud else (k % 7)
+                    w = (int(base).to_bytes(2, "little", signed=True) * ch) * 3 + (int(k).to_bytes(2, "little") * ch)
+                    v.is_valid(w)
+                got = bool(v.is_valid(first))
+                if got != want:
+                    rep.violation("validator deep history n=%d thr=%r ch=%d first=%s" % (nbetween, thr, ch, "loud" if first is loud else "faint"),
+                                  "the same window is judged %r after %d other distinct windows, %r by a fresh validator" % (got, nbetween, want),
+                                  {"kind": "misc"})
+    # two live splits of the SAME region object, consumed in every interleaving
+    from .chk_split import merges
+
+    for p, kw in itertools.product(["AaA", "AAAA", "aAAaA"], kws[:2]):
+        reg = core.AudioRegion(pcm(p), 10, 2, 1)
+        solo = [(r.start, r.data) for r in reg.split(analysis_window=0.1, **kw)]
+        for order in merges(len(solo) + 1, len(solo) + 1):
+            rep.add("evaluations")
+            gens = [reg.split(analysis_window=0.1, **kw), core.split(reg, analysis_window=0.1, **kw)]
+            got = [[], []]
+            for g in order:
+                r = next(gens[g], None)
+                if r is not None:
+                    got[g].append((r.start, r.data))
+            if got[0] != solo or got[1] != solo:
+                rep.violation("same-region interleaved pattern=%s kw=%r order=%s" % (p, sorted(kw.items()), "".join(map(str, order))),
+                              "two live splits of one region object give starts %r / %r, a single split %r" % (
+                                  [x[0] for x in got[0]], [x[0] for x in got[1]], [x[0] for x in solo]), {"kind": "misc"})
+                break
     # buffer source: close and reopen restarts at the beginning
     data = pcm("AaAaA")
     for k in range(0, 7):
@@ -267,7 +369,7 @@ def replay(case):
     f2 = tm.parse(case["second"])
     n1, b1 = len(f1), sum(1 << i for i, v in enumerate(f1) if v)
     n2, b2 = len(f2), sum(1 << i for i, v in enumerate(f2) if v)
-    tok = ST(_valid_tuple, *params)
+    tok = make_tok(ST, params)
     apply_use(tok, tuple(case["use"]), frames_of(n1, b1))
     got = [(s, e) for _, s, e in tok.tokenize(Src(frames_of(n2, b2)))]
     fresh = [(s, e) for _, s, e in ST(_valid_tuple, *params).tokenize(Src(frames_of(n2, b2)))]
